@@ -47,6 +47,7 @@ type Case struct {
 	BurstM   int    `json:"burst_marker,omitempty"`
 	CondAt   int    `json:"cond_at,omitempty"`  // which stage carries the bad condition (condition only)
 	DelayMs  int    `json:"delay_ms,omitempty"` // extra wait before the cancel
+	Nested   bool   `json:"nested,omitempty"`   // via condition: the stage with the bad condition sits in a pipeline that is itself a stage
 	Stubborn bool   `json:"stubborn,omitempty"` // the long command ignores SIGINT: it dies only after the interpreter's 2 s kill grace
 }
 
@@ -128,9 +129,22 @@ func scenario(c Case, dir string, scale int) string {
 			tk := task.FromCommands(fmt.Sprintf("printf 'X\\n' >> %s", log))
 			tk.Name = "badcond"
 			st := &scheduler.Stage{Name: "badcond", Task: tk, Condition: "/nonexistent/verif-cond"}
+			if c.Nested {
+				// the condition error happens inside a pipeline that runs as a stage of the outer one
+				side := task.FromCommands(fmt.Sprintf("printf 'Y\\n' >> %s", log))
+				side.Name = "inner-side"
+				inner, err := scheduler.NewExecutionGraph(st, &scheduler.Stage{Name: "inner-side", Task: side})
+				if err != nil {
+					return "graph: " + err.Error()
+				}
+				st = &scheduler.Stage{Name: "nesting", Pipeline: inner}
+			}
 			if c.CondAt > 0 && c.K > 0 {
 				// evaluated on every pass while waiting: fires on the first pass whatever it depends on
 				st.DependsOn = []string{"t0"}
+			}
+			if c.Nested && c.CondAt > 0 {
+				st.DependsOn = nil // a nesting stage that waits for t0 would never start: t0 runs for 30 s
 			}
 			ss = append(ss, st)
 		}
@@ -464,7 +478,7 @@ func clip(s string, n int) string {
 
 func record(c Case) {
 	drv.Eval(fmt.Sprintf("in-flight=%d", c.K), fmt.Sprintf("waiting=%d", c.W), "phase="+c.Phase, "via="+c.Via, "cancel="+c.Double)
-	drv.NonTrivial(fmt.Sprintf("%d/%d/%s/%s/%s/%v", c.K, c.W, c.Phase, c.Double, c.Via, c.Stubborn))
+	drv.NonTrivial(fmt.Sprintf("%d/%d/%s/%s/%s/%v/%v", c.K, c.W, c.Phase, c.Double, c.Via, c.Stubborn, c.Nested))
 }
 
 func normalise(c Case) Case {
@@ -473,6 +487,8 @@ func normalise(c Case) Case {
 	}
 	if c.Via == "condition" {
 		c.Phase, c.Double = "command", "once"
+	} else {
+		c.Nested = false
 	}
 	if c.Phase == "burst" {
 		if c.K == 0 {
@@ -507,6 +523,7 @@ func genCase(rt *rapid.T) Case {
 		CondAt:   rapid.IntRange(0, 1).Draw(rt, "cond_at"),
 		DelayMs:  rapid.SampledFrom([]int{0, 0, 1, 5, 20, 50}).Draw(rt, "delay"),
 		Stubborn: rapid.IntRange(0, 3).Draw(rt, "stubborn") == 0,
+		Nested:   rapid.Bool().Draw(rt, "nested-condition"),
 	}
 	return normalise(c)
 }
@@ -567,8 +584,8 @@ func TestMatrix(t *testing.T) {
 					cases = append(cases, c)
 				}
 			}
-			for at := 0; at < 2; at++ {
-				c := normalise(Case{K: k, W: w, Via: "condition", CondAt: at})
+			for at := 0; at < 4; at++ {
+				c := normalise(Case{K: k, W: w, Via: "condition", CondAt: at % 2, Nested: at >= 2})
 				if !seen[c.canon()] {
 					seen[c.canon()] = true
 					cases = append(cases, c)
